@@ -33,6 +33,10 @@ class SqliteImpl(SqlImpl):
         return "BINARY"
 
     @classmethod
+    def supports_duration_literals(cls) -> bool:
+        return False
+
+    @classmethod
     def compile_cast(cls, cast: Cast, sqa_col: dict[str, sqa.Label]) -> sqa.Cast:
         compiled_val = cls.compile_col_expr(cast.val, sqa_col)
         val_type = types.without_const(cast.val.dtype())
